@@ -40,7 +40,13 @@ def main(argv):
     except ModuleNotFoundError as e:
         print("unknown property %s (%s)" % (name, e))
         return 2
-    return core.main_check(mod, tier, replay)
+    try:
+        return core.main_check(mod, tier, replay)
+    except BaseException as e:          # anything unexpected is the harness's fault: never exit 1
+        import traceback
+        traceback.print_exc()
+        print("HARNESS-ERROR property=%s unexpected %s" % (name, type(e).__name__))
+        return 2
 
 
 if __name__ == "__main__":
